@@ -82,6 +82,7 @@ func runC03(c *Check, a *Analysis) {
 	ls := a.Locks()
 	sc := siteCounter{}
 	ruleSweepKeepsStreams(c, a, "R-SWEEP-KEEPS-STREAMS")
+	ruleWaitUnderFlag(c, a, "R-WAIT-UNDER-FLAG")
 	ruleSweepRemoves(c, a, "R-SWEEP-REMOVES")
 	ruleReaderExitCause(c, a, "R-READER-EXIT-CAUSE")
 	c.Rule("R-LOCK", "Conn.shutdown/closing/pending/streams only under Conn.mutex; Server.codecs under Server.mutex; Server.listeners under Server.mut", 10)
